@@ -120,6 +120,9 @@ class PanicScan:
                         # an accumulation (`acc * 10 + d`) in a loop whose trip count is capped by a length test against a constant before the
                         # loop: whether the cap keeps the value in range is a question about runtime values - not decided (a loop with NO such cap
                         # stays a finding: any long enough input overflows)
+                        if src and all(self._internal_value(b, src[-1].rv[k_]) for k_ in ("l", "r")) and not all(src[-1].rv[k_].kind == "const" for k_ in ("l", "r")):
+                            undecided.append({"body": b, "pos": (bi, len(blk.stmts)), "construct": "assert:Overflow of `%s` on values computed from the structure's own fields (an invariant of the data structure, not a caller's value): not decided" % src[-1].rv["op"].replace("WithOverflow", ""), "line": t.line})
+                            continue
                         if src and self._value_guarded(b, bi, src[-1]):
                             undecided.append({"body": b, "pos": (bi, len(blk.stmts)), "construct": "assert:Overflow of `%s` on a value that a test on the way restricts (%s): whether the restriction excludes the overflow is a question about runtime values" % (src[-1].rv["op"].replace("WithOverflow", ""), self._value_guarded(b, bi, src[-1])), "line": t.line})
                             continue
@@ -134,6 +137,16 @@ class PanicScan:
                     if c.res is None and c.deff in self.prog.bodies:
                         continue
                     mp = callee_may_panic(c)
+                    if mp is True and c.trait in ("std::ops::Index", "std::ops::IndexMut") and len(t.args) == 2 and re.search(r"Index(Mut)?<usize>", c.def_args or ""):
+                        why_ = self._index_guarded(b, bi, t)
+                        if why_:
+                            undecided.append({"body": b, "pos": (bi, len(blk.stmts)), "construct": "assert:index into a private table with %s: in bounds by an invariant / a test on runtime values, not decided" % why_, "line": t.line})
+                            continue
+                    if mp is True and (c.method in ("split_at", "split_at_mut") or (c.trait in ("std::ops::Index", "std::ops::IndexMut") and re.search(r"Index(Mut)?<std::ops::Range", c.def_args or ""))) and len(t.args) == 2:
+                        at_ = self._pvn_of(b, t.args[1])
+                        if any(a[0] == "call" and a[1] in self.prog.bodies for a in at_) or any(a[0] == "op" for a in at_):
+                            undecided.append({"body": b, "pos": (bi, len(blk.stmts)), "construct": "assert:slice split / range index at a position computed by crate code / arithmetic (not a caller's raw value): in bounds by an invariant, not decided", "line": t.line})
+                            continue
                     if mp is True:
                         construct = "call:" + (c.def_args or c.name)
                     elif mp is None:
@@ -153,6 +166,73 @@ class PanicScan:
                     undecided.append({"body": b, "pos": (bi, len(blk.stmts)), "construct": unknown, "line": t.line})
         stats = {"reachable_bodies": len(reach), "calls": n_calls, "asserts": n_asserts, "exempted": exempted}
         return findings, undecided, stats
+
+    def _pvn_of(self, b, op):
+        from prov import Prov
+        if not hasattr(self, "_pvn"):
+            self._pvn = Prov(self.prog, inline=False)
+        return self._pvn.of_operand(b, op)
+
+    def _internal_value(self, b, op):
+        """the operand is computed from the structure's own state only (fields of `self`, constants, calls on those): no parameter other than
+        `self` of the function (for a closure: of the function it is written in) flows into it.  Such a value is as good as the data-structure
+        invariant behind it - the caller cannot choose it."""
+        from prov import Prov
+        if not hasattr(self, "_pvn"):
+            self._pvn = Prov(self.prog, inline=False)
+        if op.kind == "const":
+            return True
+        if op.place is None:
+            return False
+        root = self.prog.bodies.get(b.root) if b.kind == "Closure" and b.root in self.prog.bodies else b
+        at = self._pvn.of_operand(b, op)
+        if not at:
+            return False
+        for a in at:
+            if a[0] == "param" and a[1] == root.id and not (a[2] == 1 and root.arg_names.get(1) == "self"):
+                return False
+            if a[0] == "param" and a[1] == b.id and b.kind != "Closure" and not (a[2] == 1 and b.arg_names.get(1) == "self"):
+                return False
+            if a[0] == "upvar":
+                return False
+        return any(a[0] == "field" for a in at)
+
+    def _index_guarded(self, b, bi, t):
+        if self._internal_value(b, t.args[1]):
+            return "an index computed from the structure's own fields"
+        if b.kind == "Closure" and t.args[1].place is not None:
+            # `.map(|pos| table[pos])` / `.find(|&slot| terms[slot] ..)`: the index is what an adaptor hands to the closure (an element of a table, the
+            # position a search returned) - a caller's raw value reaches a closure as a captured variable, not as its parameter
+            from prov import Prov
+            if not hasattr(self, "_pvn"):
+                self._pvn = Prov(self.prog, inline=False)
+            rs = user_root_locals(b, self._pvn, t.args[1], stop=set(range(2, b.nargs + 1)))
+            if rs:
+                return "an index that is the closure's own parameter (handed in by an iterator adaptor / Option combinator)"
+        """`table[i]` where i is not a caller's raw value: (a) computed to fit (`& mask`, `% len`, a `binary_search` / `position` hit), (b) read out
+        of one of the structure's own tables (a stored slot), (c) restricted by a comparison on the way.  Returns a description or None."""
+        from prov import Prov
+        if not hasattr(self, "_pvn"):
+            self._pvn = Prov(self.prog, inline=False)
+        pvn = self._pvn
+        at = pvn.of_operand(b, t.args[1])
+        if any(a[0] == "op" and str(a[1]).startswith(("BitAnd", "Rem")) for a in at):
+            return "an index reduced by `&` / `%`"
+        if any(a[0] == "call" and a[3] == b.id and re.search(r"::(binary_search\w*|position|rposition|partition_point)$", a[1]) for a in at):
+            return "the position a search returned"
+        fl = {a[2] for a in at if a[0] == "field"} - {"0", "1"}
+        if fl and not any(a[0] == "param" and a[2] != 1 for a in at):
+            return "a value read from the structure's own field(s) %s" % "/".join(sorted(fl))
+        rs = user_root_locals(b, pvn, t.args[1]) if t.args[1].place is not None else set()
+        for sb in sorted(b.reach):
+            x = b.blocks[sb].term
+            if x.k != "switch" or not any(b.edge_dominates((sb, tg), bi) for tg in x.successors()):
+                continue
+            ds = pvn.defs(b).get(x.discr.place.local, []) if x.discr.place is not None else []
+            for k_, p_, d_ in ds:
+                if k_ == "assign" and d_.rv["k"] == "bin" and d_.rv["op"] in ("Lt", "Le", "Gt", "Ge") and ((user_root_locals(b, pvn, d_.rv["l"]) if d_.rv["l"].place is not None else set()) | (user_root_locals(b, pvn, d_.rv["r"]) if d_.rv["r"].place is not None else set())) & rs:
+                    return "an index that a comparison on the way restricts"
+        return None
 
     def _value_guarded(self, b, bi, st):
         """the arithmetic whose overflow check sits in block bi works on a value that is TESTED on the way: (Sub) a predicate / comparison on the
@@ -2708,6 +2788,8 @@ def error_sites(prog, file_rx=r".*"):
             rt = tg.locals[0]["s"]
             if "Result<" not in rt or "HpoError" not in rt:
                 continue
+            if not re.match(r"^(std::result::|core::result::)?Result<", rt):
+                continue  # `Option<Result<..>>` (an iterator's item): `unwrap_or(Err(..))` on the Option supplies an error, it does not drop one
             d = t.dest.local
             uses = []
             work, seen = [d], set()
@@ -3206,4 +3288,90 @@ def check_zip_lengths(ck, rule, prog, bodies, what):
             elif set(diff) == {()}:
                 ck.ob(rule, key, False, "%s zips %s elements with %s elements: the zip ends with the shorter side, %d element(s) of %s are never visited" % (b.short, fmt_len(la), fmt_len(lb), abs(diff[()]), what), where=b.where(t.line))
             # a difference that depends on a collection length is not decided here
+    return n
+
+
+# =====================================================================================================
+# PARALLEL: two vectors of one struct that are filled side by side must be edited at the same position
+# =====================================================================================================
+def check_parallel_vectors(ck, rule, prog, bodies):
+    """A method that adds one element to TWO `Vec` fields of the same struct keeps them element-aligned only if both additions go to the same
+    position: `a.insert(idx, x); b.push(y)` (or `remove(i)` next to `swap_remove(i)` / `pop()`) shifts one of them against the other.  Structural:
+    the pair of calls, their receivers (two different fields of `self`) and the kind of positional edit."""
+    from prov import Prov
+    pvn = Prov(prog, inline=False)
+    ADD = {"insert": "at", "push": "end"}
+    DEL = {"remove": "shift", "swap_remove": "swap", "pop": "end", "truncate": "end"}
+    n = 0
+    for b in bodies:
+        if b.kind not in ("Fn", "AssocFn") or b.nargs < 1:
+            continue
+        adds, dels = [], []
+        for bi, t in b.calls():
+            m = t.callee.method
+            if (m not in ADD and m not in DEL) or not re.search(r"^std::vec::Vec::<", t.callee.def_args or "") or not t.args or t.args[0].place is None:
+                continue
+            fl = set()
+            l = t.args[0].place.local
+            for k_, p_, d_ in pvn.defs(b).get(l, []):
+                if k_ == "assign" and d_.rv["k"] == "ref" and d_.rv["place"].local == 1:
+                    es = [e for e in d_.rv["place"].fields() if e != "*"]
+                    if len(es) == 1 and es[0][0] == "f":
+                        fl.add((es[0][1], es[0][2]))
+            if len(fl) != 1:
+                continue
+            (fld, adt), = fl
+            # insert(len) is a push
+            kind = ADD.get(m) or DEL.get(m)
+            (adds if m in ADD else dels).append((fld, adt, kind, m, t.line, bi))
+        for group, what in ((adds, "adds to"), (dels, "removes from")):
+            by_adt = {}
+            for x in group:
+                by_adt.setdefault(x[1], []).append(x)
+            for adt, xs in by_adt.items():
+                flds = {x[0] for x in xs}
+                if len(flds) < 2 or len(xs) != len(flds):
+                    continue  # one field only, or several edits of one field: not the side-by-side pattern
+                kinds = {x[2] for x in xs}
+                # all edits on one path?  (an if/else that edits either field is not side by side)
+                if not all(b.dominates(xs[0][5], x[5]) or b.dominates(x[5], xs[0][5]) for x in xs):
+                    continue
+                n += 1
+                ck.ob(rule, "parallel/%s/%s" % (b.short, "+".join(sorted(flds))), len(kinds) == 1,
+                      "%s %s the vectors %s of %s %s" % (b.short, what, " and ".join("`%s` (%s)" % (x[0], x[3]) for x in sorted(xs)), adt.rsplit("::", 1)[-1],
+                                                          "at the same position" if len(kinds) == 1 else "at DIFFERENT positions: they go out of step, element i of one no longer belongs to element i of the other"),
+                      where=b.where(xs[0][4]))
+    return n
+
+
+# =====================================================================================================
+# BOUNDARY: functions of one module that compare with the same named constant cut at the same point
+# =====================================================================================================
+def check_boundary_agreement(ck, rule, prog, bodies, what):
+    """`x <= LIMIT` in the function that stores and `x < LIMIT` in the function that looks up disagree about x == LIMIT exactly (a contradiction rule:
+    one of the two is wrong, whichever the intended bound is).  All comparisons of a non-constant value with one NAMED constant inside `bodies` must
+    fall into the same partition: {x < C | x >= C} or {x <= C | x > C}.  Equality tests are no boundary."""
+    from prov import Prov
+    pvn = Prov(prog, inline=False)
+    seen = {}
+    for b in bodies:
+        for cs in compare_switches(b, pvn):
+            for kc, ko in (("r", "l"), ("l", "r")):
+                c, o = cs[kc], cs[ko]
+                if c.kind != "const" or not c.const.get("def") or o.kind == "const" or cs["op"] not in ("Lt", "Le", "Gt", "Ge"):
+                    continue
+                op = cs["op"] if kc == "r" else {"Lt": "Gt", "Le": "Ge", "Gt": "Lt", "Ge": "Le"}[cs["op"]]
+                part = "x < C | x >= C" if op in ("Lt", "Ge") else "x <= C | x > C"
+                seen.setdefault(c.const["def"], []).append((part, b, cs["line"], op))
+    n = 0
+    for cdef, xs in sorted(seen.items()):
+        if len({x[1].id for x in xs}) < 2:
+            continue
+        n += 1
+        parts = sorted({x[0] for x in xs})
+        nm = cdef.rsplit("::", 1)[-1]
+        ck.ob(rule, "boundary/%s" % nm, len(parts) == 1,
+              "%s: %d comparisons with %s in %s %s" % (what, len(xs), nm, sorted({x[1].short for x in xs}), ("all cut at the same point (%s)" % parts[0].replace("C", nm)) if len(parts) == 1 else
+                                                   "DISAGREE about the value %s itself: %s" % (nm, "; ".join("%s uses `%s`" % (x[1].short, {"Lt": "<", "Le": "<=", "Gt": ">", "Ge": ">="}[x[3]]) for x in xs))),
+              where=xs[0][1].where(xs[0][2]))
     return n
